@@ -141,6 +141,17 @@ func (w *c05eWalker) callEvent(c *ast.CallExpr) (string, bool) {
 	} else if w.x.isLogCall(c) {
 		return "", false
 	}
+	if strings.HasPrefix(how, "recv+") {
+		// `x.F.m(args)` -> "F.m": the field the method is called on
+		how = how[5:]
+		if sel, ok := c.Fun.(*ast.SelectorExpr); ok {
+			if inner, ok := sel.X.(*ast.SelectorExpr); ok {
+				name = inner.Sel.Name + "." + name
+			} else if id, ok := sel.X.(*ast.Ident); ok {
+				name = id.Name + "." + name
+			}
+		}
+	}
 	switch {
 	case strings.HasPrefix(how, "arg"):
 		i, _ := strconv.Atoi(how[3:])
@@ -1106,8 +1117,31 @@ func c05engineExtra(t *tr) string {
 		b.WriteString(c05eLeanPaths("instanceRunDefers", "regenerated from `(*instance).Run`: its deferred statements (`<result>` = the named result)", [][]string{ev}))
 	}
 	if fd := need("instancePool", "runAsync"); fd != nil {
-		w := walker(map[string]string{"WithCancel": "arg0", "buildNewInstanceSchedule": "", "Run": "arg0", "startInstances": "arg0"})
+		w := walker(map[string]string{"WithCancel": "arg0", "buildNewInstanceSchedule": "", "Run": "recv+arg0", "startInstances": "arg0"})
 		b.WriteString(c05eLeanPaths("runAsync", "regenerated from `(*instancePool).runAsync` (context tree, what is started)", w.paths(fd.Body.List)))
+	}
+
+	if fd := need("instancePool", "buildNewInstanceSchedule"); fd != nil {
+		w := walker(map[string]string{"NewRPSSchedule": "", "NewCallbackOnFinishSchedule": ""})
+		b.WriteString(c05eLeanPaths("buildNewInstanceSchedule", "regenerated from `(*instancePool).buildNewInstanceSchedule` (per-instance factory, or one shared schedule built here)", w.paths(fd.Body.List)))
+		// the callback handed to NewCallbackOnFinishSchedule: what it does when the shared schedule has run out
+		var cb *ast.FuncLit
+		ast.Inspect(fd, func(n ast.Node) bool {
+			if c, ok := n.(*ast.CallExpr); ok && x.callName(c) == "NewCallbackOnFinishSchedule" {
+				for _, a := range c.Args {
+					if fl, ok := a.(*ast.FuncLit); ok {
+						cb = fl
+					}
+				}
+			}
+			return true
+		})
+		if cb == nil {
+			x.fail(fd, "no callback literal passed to NewCallbackOnFinishSchedule")
+		} else {
+			w := walker(map[string]string{"cancelStart": ""})
+			b.WriteString(c05eLeanPaths("sharedScheduleFinished", "regenerated from `buildNewInstanceSchedule`: the on-finish callback of the shared RPS schedule", w.paths(cb.Body.List)))
+		}
 	}
 
 	// Engine.Run / Wait
